@@ -1881,7 +1881,10 @@ class Exec:
                 pats.append(ei)
         except Exception:
             pass
-        add(z3.ForAll([i], z3.Implies(z3.And(i >= 0, i < n, to_z3(keep(i))),
+        ki0 = to_z3(keep(i))
+        if _is_uf_app(ki0) and _mentions(ki0, i) and _pattern_ok(ki0):
+            pats.append(ki0)                  # ... or a mention of the selection predicate at i (mask[i])
+        add(z3.ForAll([i], z3.Implies(z3.And(i >= 0, i < n, ki0),
                                       z3.And(inv(i) >= 0, inv(i) < m, src(inv(i)) == i)),
                       patterns=pats))
         j2 = bvar("j")
